@@ -2,6 +2,7 @@
 from ..canon import Canon, subtrees, show
 from ..extract import AnalysisBroken
 from ..facts import src
+from ..rules import overlap
 from ..rules.results import lvalue_text
 from ..util import switch_table, find_switches, is_assign
 
@@ -15,7 +16,10 @@ EXPLANATION = (
     "built-in compressors admits only offsets that fit the two offset bytes they emit (<= 65535), and "
     "the guard dominates the emission; (4) every decompressor stores *dst_size only on success paths "
     "and what it reports cannot exceed dst_capacity (the built-in ones compare against it, the wrappers "
-    "report the library's count for that capacity). Decides these clauses, not the round trip nor "
+    "report the library's count for that capacity); (5) in the LZ4/Snappy decoders and in every "
+    "implementation installed in the match_copy dispatch slot, a block copy (memcpy, vector load/store) "
+    "from the output's own history is nested in a branch that establishes distance >= width of the "
+    "copy, so it equals the forward byte copy the formats define for overlapping matches. Decides these clauses, not the round trip nor "
     "sufficiency of the bound formulas.")
 
 SN = "src/compression/snappy.c"
@@ -40,6 +44,7 @@ def run(ctx):
     ctx.clause("C09.2 compress_data pairs bound/compressor per codec and allocates the bound")
     ctx.clause("C09.3 match offsets fit the emitted offset width")
     ctx.clause("C09.4 reported sizes never exceed the capacity")
+    ctx.clause("C09.5 block copies from the output history are no wider than the guarded match distance")
     for file_, fname, bound in ((SN, "carquet_snappy_compress", "carquet_snappy_compress_bound"),
                                 (LZ, "carquet_lz4_compress", "carquet_lz4_compress_bound")):
         f = P.fn(fname, file_)
@@ -154,6 +159,7 @@ def run(ctx):
            "`%s` is not modified between the bound table and its uses" % bound_var, okw)
 
     offset_width_rule(ctx)
+    overlap.run(ctx)
 
     # ---- reported size <= capacity
     for file_, fname in ((SN, "carquet_snappy_decompress"), (LZ, "carquet_lz4_decompress")):
